@@ -890,6 +890,10 @@ func parseShapes(csv *csv.File) []Shape {
 			log.Printf("Skipping shape because of missing keys %s", missingKeys)
 			continue
 		}
+		if shapePtLat == nil || shapePtLon == nil || shapePtSequence == nil {
+			log.Printf("Skipping shape point because of an unparseable number")
+			continue
+		}
 
 		shapeIDToRowData[shapeID] = append(shapeIDToRowData[shapeID], ShapeRow{
 			ShapePtLat:        *shapePtLat,
